@@ -5,6 +5,7 @@ go 1.23
 require (
 	github.com/confluentinc/confluent-kafka-go v1.9.2
 	github.com/digitalocean/firebolt v0.0.0
+	github.com/olivere/elastic/v7 v7.0.32
 	github.com/sirupsen/logrus v1.9.0
 )
 
@@ -30,7 +31,6 @@ require (
 	github.com/klauspost/compress v1.13.6 // indirect
 	github.com/mailru/easyjson v0.7.7 // indirect
 	github.com/matttproud/golang_protobuf_extensions v1.0.1 // indirect
-	github.com/olivere/elastic/v7 v7.0.32 // indirect
 	github.com/pierrec/lz4 v2.6.1+incompatible // indirect
 	github.com/pkg/errors v0.9.1 // indirect
 	github.com/pmezard/go-difflib v1.0.0 // indirect
